@@ -1,6 +1,6 @@
 """Self-test: in-memory mutants (must fire) and refactorings (must stay quiet)."""
 
 
-def run(prop, tier, seed):
-    from . import corpus
-    return corpus.run(prop, tier, seed)
+def run(prop, tier, seed, base_keys=None):
+    from . import runner
+    return runner.run(prop, tier, seed, base_keys)
